@@ -197,10 +197,15 @@ def rand_plane(rng, moderate=False):
 
 
 def star2(rng, n, rmin, rmax, cx=0.0, cy=0.0, cw=False):
-    angs = sorted(rng.sample(range(64), n))
-    pts = [Point2D(cx + rng.uniform(rmin, rmax) * math.cos(2 * math.pi * a / 64),
-                   cy + rng.uniform(rmin, rmax) * math.sin(2 * math.pi * a / 64))
-           for a in angs]
+    while True:
+        angs = sorted(rng.sample(range(64), n))
+        if max((b - a) % 64 for a, b in zip(angs, angs[1:] + angs[:1])) < 31:
+            break
+    pts = []
+    for a in angs:
+        r = rng.uniform(rmin, rmax)
+        pts.append(Point2D(cx + r * math.cos(2 * math.pi * a / 64),
+                           cy + r * math.sin(2 * math.pi * a / 64)))
     return list(reversed(pts)) if cw else pts
 
 
